@@ -345,6 +345,9 @@ def decoy_text(cls, marker, rnd, macros, eol):
     }
     for k in list(extra):
         # a near-miss that happens to coincide with a configured macro is not a decoy: neutralise it
+        # (classes that use a configured name on purpose - without a literal message - are exempt)
+        if k.startswith("no_literal"):
+            continue
         head = extra[k].split("!(")[0]
         if head in names or any(head == "%s::%s" % mn for mn in macros):
             extra[k] = '// %s coincides with a configured macro in this set' % marker
